@@ -385,7 +385,12 @@ func c12HijackBeforeSend(e *Env) {
 	n := 0
 	for _, f := range e.P.SrcFuncs(false) {
 		if f.Parent() == nil {
-			continue
+			// a named function of handler shape (…, *ResponseWriter, *pool.Message) can be registered as a continuation through a
+			// method value just like a closure
+			np := len(f.Params)
+			if np < 2 || !isPoolMsg(f.Params[np-1]) || !strings.Contains(f.Params[np-2].Type().String(), "ResponseWriter") {
+				continue
+			}
 		}
 		core.Instrs(f, func(in ssa.Instruction) {
 			var sent []ssa.Value
